@@ -219,6 +219,27 @@ def matrix_cases(chk):
                             t2 = [(k, vv if vv is not None else rng.choice(KINDS[k])) for k, vv in t2]
                             tuples.append(t2)
                 cases.append({"name": name, "arity": arity, "group": first, "tuples": tuples})
+            # every boundary / hostile value (the non-representative values of every kind: NaN, +Inf, -0.0, 1e308, int64 extremes,
+            # empty collections, nested collections, hostile strings ...) in every argument position against the REPRESENTATIVE of
+            # every kind in the other positions (added after seeded change C18r2-a: percentile(non-empty array, NaN) indexed
+            # out of range; the first version paired hostile values with int/string partners only)
+            if arity >= 2:
+                hostile = [(kd, v) for kd in KIND_NAMES for v in KINDS[kd][1:]]
+                for pos in range(arity):
+                    tuples = []
+                    for hi, (hk, hv) in enumerate(hostile):
+                        partner_sets = list(itertools.product(KIND_NAMES, repeat=arity - 1))
+                        if arity == 3:
+                            # quick: a rotating kind in one slot against int / array / string / map in the other (4 of the 121 pairs per value),
+                            # all 121 in the thorough tier
+                            if q:
+                                rot = KIND_NAMES[(hi + pos) % len(KIND_NAMES)]
+                                partner_sets = [(rot, "int"), (rot, "array"), ("string", rot), ("map", rot)]
+                        for ps in partner_sets:
+                            t = [(k, KINDS[k][0]) for k in ps]
+                            t.insert(pos, (hk, hv))
+                            tuples.append(t)
+                    cases.append({"name": name, "arity": arity, "group": f"hostile@{pos}", "tuples": tuples})
     chk.extra["functions_in_matrix"] = nf
     chk.extra["functions_skipped_side_effects"] = sorted(SKIP_FUNCS)
     return cases
@@ -495,6 +516,11 @@ def pathological_programs():
     P.append(("huge-array-index", "$y = [1,2,3][9223372036854775807]; $z = [1,2,3][-9223372036854775808]; m[9223372036854775807] = 1"))
     P.append(("huge-slice", '$y = "abc"[-9223372036854775808:9223372036854775807]; $z = [1,2][0:9223372036854775807]'))
     P.append(("auto-extend-huge", "a = [1]; a[1000000000000] = 2"))
+    TINY = ["'", "''", "'" * 3, "'a", "a'", "'$x=1", "$x=1'", '"', '""', "#", "#'", "\n", "", " ", "{", "}", ";", ";;", "$", "$*", "@", "${", "${}",
+            "$[", "$[[", "$[[[1", "\\", "\t", "é", "\udcff", "func", "func f", "end", "end{", "1", "1;", "true", "$x=", "=1", "emit", "emit @", "tee >",
+            "print |", "ENV", "M_PI=1", "$x .+", "-", "!", "?:", "a[", "a[1:", '"\\', '"\\u', '"\\x', "0x", "0b", "1e", "1_000", ".", "..", "1..2"]
+    for i, tiny in enumerate(TINY):
+        P.append((f"tiny-{i}", tiny))
     P.append(("typed-udf-body-fails", "func f(): int { str s = 1; return 1 } $y = f()"))
     P.append(("typed-udf-arg-fails", "func f(int i): int { return i } $y = f(\"abc\")"))
     P.append(("typed-subr-body-fails", "subr p(str s) { int i = s; print i } call p(\"abc\")"))
@@ -533,6 +559,9 @@ def dsl_case(case):
     runs = [(["-n", "put", "-f", "prog.mlr"], ""), (["put", "-f", "prog.mlr"], inp)]
     if rng.random() < 0.3:
         runs.append((["--ojson", "filter", "-f", "prog.mlr"], inp))
+    if case.get("argv_carried") or (len(prog) < 2000 and "\x00" not in prog and rng.random() < 0.25):
+        # the program text as a command-line word: that path strips quotes and appends a newline before parsing
+        runs = runs[:1] + [(["-n", "put", prog], ""), (["filter", "-x", prog], inp), (["-n", "put", "-e", prog, "-e", prog], "")]
     for argv, stdin in runs:
         cwd_files = {"prog.mlr": prog.encode("utf-8", "surrogateescape")}
         r = R.mlr(argv, stdin=stdin, files=cwd_files, env=ENV, cpu_s=(10 if name == "mutant" else 20), watchdog=60, as_bytes=4 << 30)
@@ -557,7 +586,7 @@ def dsl_case(case):
 
 def verb_cases(chk):
     rng = chk.rng("verbs")
-    hostile_n = ["0", "-1", "9223372036854775808", "abc", "", "1e3", "-9223372036854775808"]
+    hostile_n = ["0", "-1", "9223372036854775808", "abc", "", "1e3", "-9223372036854775808", "NaN", "nan", "Inf", "-inf", "9223372036854775807", "1e400", "0x10", "1.5"]
     T = []
     for n in hostile_n:
         T += [["head", "-n", n], ["tail", "-n", n], ["decimate", "-n", n], ["sample", "-k", n], ["top", "-n", n, "-f", "x"], ["fill-down", "-f", n],
@@ -615,7 +644,7 @@ FLAG_SECTIONS = ["comments-in-data-flags", "compressed-data-flags", "csv/tsv-onl
 FLAG_SKIP = {"--prepipe", "--prepipex", "--prepipe-gunzip", "--prepipe-zcat", "--prepipe-bz2", "--prepipe-zstdcat", "--load", "--mload", "--from", "--mfrom",
              "-n", "--version", "-I", "--norc-processing", "-s", "--ofmt", "--tz", "--nr-progress-mod", "--files", "--cpuprofile", "--traceprofile", "--time",
              "-x", "--norc", "--infer-none", "--c2p", "--lazy-quotes"}
-HOSTILE_ARGS = ["", "abc", "0", "-1", ";", ";;", "tab", "\\", "(", "[", "a|b", "9223372036854775808", "widths:", "widths:0,0", "widths:-1,2", "widths:x", "left-align",
+HOSTILE_ARGS = ["9223372036854775807", "-9223372036854775808", "4294967296", "1000000000000", "", "abc", "0", "-1", ";", ";;", "tab", "\\", "(", "[", "a|b", "9223372036854775808", "widths:", "widths:0,0", "widths:-1,2", "widths:x", "left-align",
                 "right-align-multi-word", " ", "\n", "semicolon", "ascii_null", "%", "%d", "%lf", "%s", "%08.3lf", "%z", "x,y", "é", "\xff", "0x", "1e400", ".", "{}", "a=b"]
 
 
@@ -682,7 +711,7 @@ TIME_FMTS = ["%Y", "%e %Y", "%d", "%j", "%e", "%m/%d", "%H:%M:%S", "%y%m%d", "%s
 TIME_INPUTS = ["", "4", "4 ", " 4", "abc", "2023", "12:", "1/", "-", "-007", "20230101", "1 2 3", "31", "366", "Mar 4", "Mar  4", "AM", "12 PM", "+0100", "Z", "%", "1.5", ".", "00", "4 2023x", "2023-01-01T00:00:00Z", "99999999999"]
 REGEX_HOSTILE = ['(a)(b)(c)(d)(e)(f)(g)(h)(i)(j)', '(a)(b)(c)(d)(e)(f)(g)(h)(i)(j)(k)(l)', '((((((((((((a))))))))))))', '(a)?(b)?(c)?(d)?(e)?(f)?(g)?(h)?(i)?(j)?(k)?', '"i', '"', '""i', '"a"i', '"(', '(?i', '\\', 'a{2,1}', '[[:alpha:', '(?P<n>a)(?P<n>b)', 'a**', '\\1', '(a)|b', '^*', '$^', '.{0}', '(?:)', 'a|', '|', '\\Q', 'x*?+', '[z-a]']
 REGEX_FNS = [("sub", 3), ("gsub", 3), ("regextract", 2), ("regextract_or_else", 3), ("matchx" if False else "strmatchx", 2), ("strmatch", 2), ("splitax", 2), ("any", 0), ("=~", 2), ("!=~", 2)]
-PCTL_PS = ["-1", "0", "50", "100", "150", "1e300", '"x"', "[50]", "[150, -1]", '["x"]', "[]", "{}", "$nosuch", '""']
+PCTL_PS = ["(0.0/0.0)", "(1.0/0.0)", "-(1.0/0.0)", "[25, (0.0/0.0)]", "-0.0", "1e-320", "-1", "0", "50", "100", "150", "1e300", '"x"', "[50]", "[150, -1]", '["x"]', "[]", "{}", "$nosuch", '""']
 PCTL_OPTS = ['{"interpolate_linearly": true}', '{"interpolate_linearly": "x"}', '{"output_array_not_map": true}', '{"array_is_final_sorted": true}', '{"oa": true, "il": true}',
              '{"nosuch": 1}', "{}", "3", '{"interpolate_linearly": true, "output_array_not_map": true, "array_is_final_sorted": true}']
 PCTL_DATA = ["[1,2,3]", "[]", "[3,1,2]", '["a","b"]', "[1]", '{"a":1,"b":5}', "{}", '[1,"",3]', "[[1],[2]]", "[1.5, 2, -0.0]", "3", '"abc"']
@@ -802,7 +831,7 @@ def run(chk):
         n = 1200 if q else 50000
         cases = [{"seed": f"{chk.seed}/d/{i}", "base": seeds[i % len(seeds)]} for i in range(n)]
         for name, prog in pathological_programs():
-            cases.append({"seed": f"{chk.seed}/dp/{name}", "prog": prog, "name": name})
+            cases.append({"seed": f"{chk.seed}/dp/{name}", "prog": prog, "name": name, "argv_carried": name.startswith("tiny-")})
         chk.pmap(dsl_case, cases, chunksize=4, label="d DSL mutants")
     if not only or "v" in only:
         chk.pmap(verb_case, verb_cases(chk), chunksize=4, label="v verb options")
